@@ -31,7 +31,11 @@ OpsChoices == { <<Str(<<minus>>)>>, <<Str(<<plus>>)>>,
 
 Mixfix == <<"mixfix", <<Left(Right(Str(<<lpar>>), Ref("E")), Str(<<rpar>>))>>>>
 
+(* an operator that can fail after consuming: "-" followed by "+" (two tokens, value "+") *)
+TwoTok == <<Right(Str(<<minus>>), Str(<<plus>>))>>
+
 Rows == {<<as, ops>> : as \in {"left", "right", "infix", "prefix", "postfix"}, ops \in OpsChoices}
+        \cup {<<as, TwoTok>> : as \in {"left", "prefix", "postfix"}}
         \cup {Mixfix}
 
 Operands == << Str(<<one>>),                                   \* literal: cannot partially succeed
@@ -94,7 +98,7 @@ Flat(v) ==
       [] v[1] = "P" -> Flat(v[2]) \o Flat(v[3])
       [] v[1] = "Q" -> Flat(v[2]) \o Flat(v[3])
 
-HasMixfix == \E i \in 1..Len(rows) : rows[i][1] = "mixfix"
+HasMixfix == \E i \in 1..Len(rows) : rows[i][1] = "mixfix" \/ rows[i][2] = TwoTok   \* (or an operator whose value drops a token)
 
 LawFlatten ==
     (done /\ ~HasMixfix) =>      \* (mixfix rows drop their brackets from the tree)
